@@ -120,6 +120,12 @@ def gen_case(rnd, idx):
     if kind == "LinReg" and "ig" in spec["p"] and not isinstance(spec["p"]["ig"], dict) and rnd.random() < 0.3:
         # both spellings present: the constructor lets a non-zero iq win
         spec["p"]["iq"] = round(abs(spec["p"]["ig"]) * 3.0 + 1e-4, 9)
+    if spec.get("lim") and rnd.random() < 0.25:
+        # pairs written for a negative rail (numeric order) or high-first
+        k0 = sorted(spec["lim"])[0]
+        if k0 != "tp":
+            a, b = spec["lim"][k0]
+            spec["lim"][k0] = [-b, -a] if rnd.random() < 0.5 else [b, a]
     if kind == "Rectifier" and "vdrop" not in spec["p"]:
         spec["p"]["vdrop"] = 0.0  # mandatory in the file schema
     if kind == "Converter" and isinstance(spec["p"]["eff"], (int, float)):
@@ -289,13 +295,13 @@ def run_case(spec, damages="all"):
         if kind in TYPE_FLIP_KINDS:
             for key, val in params.items():
                 if isinstance(val, dict):
-                    flips = ['"x"', "true"]
+                    flips = ['"x"', "true", '""', "false"]
                 elif isinstance(val, bool):
-                    flips = ['"yes"', "1.0", "[1.0]"]
+                    flips = ['"yes"', "1.0", "[1.0]", "0", '""']
                 elif isinstance(val, list):
-                    flips = ['"x"', "true"]
+                    flips = ['"x"', "true", '""', "false"]
                 else:
-                    flips = [json.dumps(repr(float(val))), "true"]
+                    flips = [json.dumps(repr(float(val))), "true", '""', "false"]
                     if not (kind in ("PMux", "Rectifier") and key == "rs"):
                         flips.append("[%s]" % repr(float(val)))
                 for fv in flips:
